@@ -468,3 +468,93 @@ func FactsAtDeep(b *ssa.BasicBlock) []CondFact {
 	}
 	return out
 }
+
+// HelperClosure returns fn followed by the functions of the same package it reaches through static calls
+// (closures included), up to depth levels. Rules anchored in a function use it so that moving statements
+// into an unexported helper does not hide them ("extract function" is the commonest refactoring).
+func HelperClosure(fn *ssa.Function, depth int) []*ssa.Function {
+	if fn == nil {
+		return nil
+	}
+	pkg := FuncPkgPathOf(fn)
+	seen := map[*ssa.Function]bool{fn: true}
+	out := []*ssa.Function{fn}
+	frontier := []*ssa.Function{fn}
+	for d := 0; d < depth && len(frontier) > 0; d++ {
+		var next []*ssa.Function
+		for _, f := range frontier {
+			add := func(g *ssa.Function) {
+				if g == nil || seen[g] || g.Blocks == nil || FuncPkgPathOf(g) != pkg {
+					return
+				}
+				seen[g] = true
+				out = append(out, g)
+				next = append(next, g)
+			}
+			for _, an := range f.AnonFuncs {
+				add(an)
+			}
+			EachCall(f, func(call ssa.CallInstruction) {
+				add(call.Common().StaticCallee())
+			})
+		}
+		frontier = next
+	}
+	return out
+}
+
+// EveryCallSite reports whether fn is called only statically from module code and pred holds at every call site.
+func (c *Ctx) EveryCallSite(fn *ssa.Function, pred func(site ssa.CallInstruction) bool) bool {
+	n := c.P.CHA().Nodes[fn]
+	if n == nil || len(n.In) == 0 {
+		return false
+	}
+	for _, e := range n.In {
+		if e.Site == nil || e.Site.Common().StaticCallee() != fn {
+			return false
+		}
+		if !pred(e.Site) {
+			return false
+		}
+	}
+	return true
+}
+
+// RootParam resolves v to a parameter of root: directly, or — when v is a parameter of a helper that is only
+// called statically — through the argument every call site passes for it (all call sites must agree).
+func (c *Ctx) RootParam(v ssa.Value, root *ssa.Function, depth int) *ssa.Parameter {
+	p := ParamOf(v)
+	if p == nil || depth > 3 {
+		return nil
+	}
+	if p.Parent() == root {
+		return p
+	}
+	h := p.Parent()
+	idx := -1
+	for i, q := range h.Params {
+		if q == p {
+			idx = i
+		}
+	}
+	if idx < 0 {
+		return nil
+	}
+	var res *ssa.Parameter
+	ok := c.EveryCallSite(h, func(site ssa.CallInstruction) bool {
+		args := site.Common().Args
+		if idx >= len(args) {
+			return false
+		}
+		r := c.RootParam(args[idx], root, depth+1)
+		if r == nil || (res != nil && r != res) {
+			return false
+		}
+		res = r
+		return true
+	})
+	if !ok {
+		return nil
+	}
+	return res
+}
